@@ -167,6 +167,14 @@ func RunLoot(behs [][]Step, tr *Trace, env Env, sum *Summary) {
 				case "Close":
 					b.I32(2).I32(2).I32(uint32(0x500 + f)).I32(0)
 					send(b.B)
+				case "CraftedFile":
+					ag := w.Agent(id)
+					crafted := map[string]string{"dotdot": "..", "up": "../evil", "dot": ".", "nested": ag.NameID + "/sub", "deep": "x/../../evil3", "abs": w.Dir + "/evilabs"}[c]
+					sent = crafted
+					p, to := guarded(func() { logr.LogrInstance.DemonAddDownloadedFile(crafted, "f.txt", []byte("[c1]")) }, 5*time.Second)
+					if p != "" || to {
+						sum.Incidents = append(sum.Incidents, Incident{Behaviour: bi, Step: si, Kind: "panic", Site: op, Detail: firstLines(p, 14)})
+					}
 				case "ServiceFile":
 					sent = joinName(comps, rng, true)
 					ag := w.Agent(id)
